@@ -74,6 +74,7 @@ Hypothesis Hpair : forall a b, P a -> P b -> P (VPair a b).
 Hypothesis Hvariant : forall k v, P v -> P (VVariant k v).
 Hypothesis Hptr : forall v, P v -> P (VPtr v).
 Hypothesis Hobj : forall l, Forall P l -> P (VObj l).
+Hypothesis Hvalueless : P VValueless.
 Fixpoint value_ind' (x : value leaf) : P x :=
   match x with
   | VLeaf a => Hleaf a
@@ -84,6 +85,7 @@ Fixpoint value_ind' (x : value leaf) : P x :=
   | VPtr v => Hptr v (value_ind' v)
   | VObj l => Hobj l ((fix go (l : list (value leaf)) : Forall P l :=
                          match l with [] => Forall_nil P | v :: t => Forall_cons v (value_ind' v) (go t) end) l)
+  | VValueless => Hvalueless
   end.
 End Ind.
 
@@ -116,6 +118,7 @@ Proof.
   - apply combine_lt_W. reflexivity.
   - exact IHx.
   - apply (fold_seed_lt_W l 0%N). reflexivity.
+  - reflexivity.
 Qed.
 
 Hypothesis Hleaf : leaf_ok.
@@ -131,13 +134,14 @@ Qed.
 
 Lemma hash_respects_eq x : forall y, veqb x y = true -> hash x = hash y.
 Proof.
-  induction x using value_ind'; intros [b|m|c d|j w|w|m]; simpl; try discriminate.
+  induction x using value_ind'; intros [b|m|c d|j w|w|m|]; simpl; try discriminate.
   - intros E. rewrite (leaf_hash_eq _ _ _ _ Hleaf _ _ E). reflexivity.
   - intros E. apply (fold_seed_eq l H m 0%N E).
   - intros E. apply andb_true_iff in E. destruct E as [E1 E2]. rewrite (IHx1 c E1), (IHx2 d E2). reflexivity.
   - intros E. apply andb_true_iff in E. destruct E as [_ E]. rewrite (IHx w E). reflexivity.
   - intros E. apply IHx, E.
   - intros E. apply (fold_seed_eq l H m 0%N E).
+  - reflexivity.
 Qed.
 
 (* ---------------- == is an equivalence *)
@@ -150,22 +154,24 @@ Proof.
   - rewrite Nat.eqb_refl, IHx. reflexivity.
   - exact IHx.
   - apply all2_refl_local, H.
+  - reflexivity.
 Qed.
 
 Lemma veqb_sym x : forall y, veqb x y = true -> veqb y x = true.
 Proof.
-  induction x using value_ind'; intros [b|m|c d|j w|w|m]; simpl; try discriminate.
+  induction x using value_ind'; intros [b|m|c d|j w|w|m|]; simpl; try discriminate.
   - apply (leaf_eq_sym _ _ _ _ Hleaf).
   - apply all2_sym_local, H.
   - intros E. apply andb_true_iff in E. destruct E as [E1 E2]. rewrite (IHx1 c E1), (IHx2 d E2). reflexivity.
   - intros E. apply andb_true_iff in E. destruct E as [E1 E2]. rewrite (IHx w E2), Nat.eqb_sym, E1. reflexivity.
   - apply IHx.
   - apply all2_sym_local, H.
+  - reflexivity.
 Qed.
 
 Lemma veqb_trans x : forall y z, veqb x y = true -> veqb y z = true -> veqb x z = true.
 Proof.
-  induction x using value_ind'; intros [b|m|c d|j w|w|m] [b'|m'|c' d'|j' w'|w'|m']; simpl; try discriminate.
+  induction x using value_ind'; intros [b|m|c d|j w|w|m|] [b'|m'|c' d'|j' w'|w'|m'|]; simpl; try discriminate.
   - apply (leaf_eq_trans _ _ _ _ Hleaf).
   - apply all2_trans_local, H.
   - intros E F. apply andb_true_iff in E. apply andb_true_iff in F. destruct E as [E1 E2], F as [F1 F2].
@@ -174,12 +180,13 @@ Proof.
     apply Nat.eqb_eq in E1. apply Nat.eqb_eq in F1. subst. rewrite Nat.eqb_refl, (IHx w w' E2 F2). reflexivity.
   - apply IHx.
   - apply all2_trans_local, H.
+  - reflexivity.
 Qed.
 
 (* ---------------- the two directions computed by vlt2 are each other's mirror *)
 Lemma vlt2_swap x : forall y, vlt2 y x = swap (vlt2 x y).
 Proof.
-  induction x using value_ind'; intros [b|m|c d|j w|w|m]; simpl; try reflexivity.
+  induction x using value_ind'; intros [b|m|c d|j w|w|m|]; simpl; try reflexivity.
   - apply lex2_swap_local, H.
   - rewrite IHx1, IHx2. destruct (vlt2 x1 c), (vlt2 x2 d). reflexivity.
   - rewrite IHx. destruct (vlt2 x w). simpl. rewrite (Nat.eqb_sym j k). reflexivity.
@@ -191,7 +198,7 @@ Proof. unfold Hash.vltb. rewrite vlt2_swap. reflexivity. Qed.
 
 Lemma cmp_shape_sym x : forall y, cmp_shape x y = true -> cmp_shape y x = true.
 Proof.
-  induction x using value_ind'; intros [b|m|c d|j w|w|m]; simpl; try discriminate; auto.
+  induction x using value_ind'; intros [b|m|c d|j w|w|m|]; simpl; try discriminate; auto.
   - apply all2_sym_local, H.
   - intros E. apply andb_true_iff in E. destruct E as [E1 E2]. rewrite (IHx1 c E1), (IHx2 d E2). reflexivity.
   - rewrite (Nat.eqb_sym j k). destruct (k =? j)%nat; auto.
@@ -209,7 +216,7 @@ Proof. simpl. rewrite andb_true_r. reflexivity. Qed.
 (* ---------------- exactly one of <, ==, > *)
 Lemma vtri x : forall y, cmp_shape x y = true -> exactly_one (fst (vlt2 x y)) (veqb x y) (snd (vlt2 x y)).
 Proof.
-  induction x using value_ind'; intros [b|m|c d|j w|w|m]; try (simpl; discriminate).
+  induction x using value_ind'; intros [b|m|c d|j w|w|m|]; try (simpl; discriminate).
   - intros _. simpl. apply (leaf_total _ _ _ _ Hleaf).
   - simpl. apply lex2_tri_local, H.
   - rewrite cmp_shape_pair, vlt2_pair, veqb_pair. apply lex2_tri_local. constructor; [assumption|]. constructor; [assumption|]. constructor.
@@ -222,7 +229,10 @@ Proof.
     + assert ((k <? j)%nat = false) as -> by (apply Nat.ltb_ge; lia).
       assert ((k =? j)%nat = false) as -> by (apply Nat.eqb_neq; lia).
       assert ((j <? k)%nat = true) as -> by (apply Nat.ltb_lt; lia). simpl. right; right; auto.
+  - (* a variant holding a value against a valueless one *) intros _. simpl. right; right; auto.
   - simpl. apply lex2_tri_local, H.
+  - (* valueless against a variant holding a value *) intros _. simpl. left; auto.
+  - (* both valueless *) intros _. simpl. right; left; auto.
 Qed.
 
 (* ---------------- transitivity and its mixed forms *)
@@ -258,7 +268,9 @@ Ltac natb :=
 Lemma vrules x : forall y z, cmp_shape x y = true -> cmp_shape y z = true -> cmp_shape x z = true ->
   order_rules (Lt value vlt2) (Eq value veqb) x y z.
 Proof.
-  induction x using value_ind'; intros [b|m|c d|j w|w|m] [b'|m'|c' d'|j' w'|w'|m']; try (simpl; discriminate).
+  induction x using value_ind'; intros [b|m|c d|j w|w|m|] [b'|m'|c' d'|j' w'|w'|m'|]; try (simpl; discriminate);
+    (* variants against valueless variants: every comparison involved is a constant *)
+    try (intros _ _ _; unfold order_rules, Lt, Eq; simpl; repeat split; intros; try discriminate; try reflexivity; fail).
   - intros _ _ _. apply leaf_rules.
   - simpl. apply (lex2_rules_local value vlt2 veqb cmp_shape vtri l H m m').
   - rewrite !cmp_shape_pair. unfold order_rules, Lt, Eq. rewrite !vlt2_pair, !veqb_pair.
